@@ -56,6 +56,10 @@ func (e *Expr) render(s *Spec, r *Rule) string {
 	case 'k':
 		return fmt.Sprint(e.K)
 	case 'q':
+		if strings.Contains(e.S, "\n") {
+			// a text spanning several lines: a Go raw string / TypeScript template literal, copied as it is written
+			return "`" + e.S + "`"
+		}
 		return fmt.Sprintf("%q", e.S)
 	case 'd':
 		return fmt.Sprintf("$%d", e.K)
@@ -89,6 +93,12 @@ func (s *Spec) ActionText(i int) string {
 	}
 	if !s.NoRec {
 		parts = append(parts, fmt.Sprintf("Rec(%d)", i+1))
+	}
+	if s.ActionNotes && i%3 == 1 {
+		// what people write into actions: a remark in their own language, of varying length (so that any fixed byte
+		// offset falls inside a multi-byte character for some rule)
+		note := "сумма элементов списка — 合計を計算する; größer als nötig, aber völlig harmlos für den Parser (it isn't code)"
+		parts = append(parts, "/* "+strings.Repeat("z", i%5)+note+" */")
 	}
 	return strings.Join(parts, "; ")
 }
@@ -473,7 +483,7 @@ func goEpilogue(s *Spec, o RenderOpts) string {
 		}
 		return b.String()
 	}
-	b.WriteString("var HookNext func(string, int) (int, int)\nvar HookRec func(int)\n\nfunc Rec(r int) { HookRec(r) }\n\n")
+	b.WriteString("var HookNext func(string, int) (int, int)\nvar HookRec func(int)\n\nvar vbootSteps int\n\nfunc Rec(r int) {\n\tif HookRec != nil {\n\t\tHookRec(r)\n\t\treturn\n\t}\n\tif vbootSteps++; vbootSteps > 3000 {\n\t\tpanic(\"boot parse: step budget\")\n\t}\n}\n\n")
 	for _, g := range UserGlobals {
 		b.WriteString(fmt.Sprintf("var %s = %d\n", g.Name, g.Val))
 	}
@@ -486,7 +496,7 @@ func goEpilogue(s *Spec, o RenderOpts) string {
 			break
 		}
 	}
-	b.WriteString("func GetToken(input string, val *ValType, pos *int) int {\n\tidx, v := HookNext(input, " + incoming + ")\n\t_ = v\n\t*val = ValType{}\n\tswitch idx {\n\tcase -1:\n\t\treturn " + goEOF(s) + "\n\tcase -2:\n\t\treturn v\n")
+	b.WriteString("func GetToken(input string, val *ValType, pos *int) int {\n\tif HookNext == nil {\n\t\tif vbootSteps++; vbootSteps > 3000 {\n\t\t\tpanic(\"boot parse: step budget\")\n\t\t}\n\t\treturn " + goEOF(s) + " // no environment yet (a parse during package initialisation): empty input\n\t}\n\tidx, v := HookNext(input, " + incoming + ")\n\t_ = v\n\t*val = ValType{}\n\tswitch idx {\n\tcase -1:\n\t\treturn " + goEOF(s) + "\n\tcase -2:\n\t\treturn v\n")
 	b.WriteString(goTokenCases(s))
 	b.WriteString("\t}\n\treturn -1\n}\n\n")
 	st := startTag(s)
@@ -503,6 +513,16 @@ func goEpilogue(s *Spec, o RenderOpts) string {
 		b.WriteString("func VInit(c interface{}) { ParserInit() }\n")
 		b.WriteString("func VParse(c interface{}, input string) (interface{}, bool) {\n\tr := Parser(input)\n\tif r == nil {\n\t\treturn nil, false\n\t}\n\treturn " + ret + ", true\n}\n")
 	}
+	// a parse performed from a package-level initialiser (constants computed by the parser at start-up): the empty input
+	bootInit, bootParse := "ParserInit()", "Parser(\"\")"
+	if o.Variant.Object {
+		bootInit, bootParse = "c := MakeParserContext()", "c.Parser(\"\")"
+	}
+	if s.NoRec {
+		// actions that never call the environment cannot be bounded before the driver's watchdog exists: no boot parse
+		bootInit = "if true {\n\t\treturn \"skipped\"\n\t}\n\t" + bootInit
+	}
+	b.WriteString("var VBootResult = vboot()\n\nfunc vboot() (out string) {\n\tdefer func() {\n\t\tif e := recover(); e != nil {\n\t\t\tout = \"panic: \" + fmt.Sprint(e)\n\t\t}\n\t}()\n\t" + bootInit + "\n\tif r := " + bootParse + "; r == nil {\n\t\treturn \"nil\"\n\t}\n\treturn \"accept\"\n}\nfunc VBoot() string { return VBootResult }\n")
 	b.WriteString("func VConsts() map[string]int {\n\treturn map[string]int{\n")
 	if s.EOFAlias != "" {
 		b.WriteString(fmt.Sprintf("\t\t%q: %s,\n", s.EOFAlias, s.EOFAlias))
